@@ -2,8 +2,8 @@ import PT.Lemmas.Reach
 /-!
 # C10 — Sub-tree selection and bulk removal act on exactly the covered entries
 
-Proved here: `retain`.  `children*` and `remove_children` are correspondence-checked (theorems
-pending).
+`children`, `children_mut`, `into_children` and the set's `children` run one iterator from the
+subtree selected by `lpm_children_iter_start`.
 -/
 namespace PT.C10
 open Tree Pfx PMap
@@ -29,5 +29,32 @@ theorem retain_calls_once (m : PMap w V) : (m.retainCalls none).Perm m.entries :
 
 theorem retain_preserves_inv {m : PMap w V} (h : m.Inv) (f : Pfx w → V → Bool) : (m.retain f).Inv :=
   retain_inv h f none
+
+/-- `children(q)` (and `children_mut`, `into_children`, the set's `children`) yields exactly the
+stored entries covered by `q` (itself included), in lexicographic order -/
+theorem children_eq {m : PMap w V} (h : m.TreeWF) (q : Pfx w) :
+    m.childrenIter q = m.entries.filter (fun e => q.contains e.1) := by
+  unfold PMap.childrenIter
+  rw [iterAll_root]
+  apply List.eq_of_sorted_of_mem_iff (lt := fun a b => Spec.keyLt a.1.net b.1.net = true)
+    (fun a => by simp [Spec.keyLt_irrefl]) (fun a b c => Spec.keyLt_trans) _ _
+    (entries_sorted (childrenStart_wf h.wf q)) ((entries_sorted h.wf).filter _)
+  intro e
+  rw [childrenStart_mem h.wf (h.rootCovers q), List.mem_filter, contains_iff]; rfl
+
+theorem children_mem {m : PMap w V} (h : m.TreeWF) (q : Pfx w) (e : Pfx w × V) :
+    e ∈ m.childrenIter q ↔ e ∈ m.entries ∧ q.net <+: e.1.net := by
+  rw [children_eq h, List.mem_filter, contains_iff]
+
+/-- `remove_children(q)` removes exactly those entries and leaves all others with their values and
+representations (a zero-length prefix empties the map) -/
+theorem removeChildren_entries {m : PMap w V} (h : m.TreeWF) (q : Pfx w) (e : Pfx w × V) :
+    e ∈ (m.removeChildren q).entries ↔ e ∈ m.entries ∧ ¬ q.net <+: e.1.net := removeChildren_mem h q e
+
+theorem removeChildren_zero {m : PMap w V} (q : Pfx w) (hq : q.len = 0) : (m.removeChildren q).entries = [] := by
+  unfold PMap.removeChildren; simp [hq, PMap.clear, PMap.empty_entries]
+
+theorem removeChildren_preserves_inv {m : PMap w V} (h : m.Inv) (q : Pfx w) : (m.removeChildren q).Inv :=
+  removeChildren_inv h q
 
 end PT.C10
